@@ -31,6 +31,7 @@ import (
 	"time"
 
 	"github.com/AliceO2Group/Control/common/logger/infologger"
+	"github.com/AliceO2Group/Control/common/verifhook"
 	"github.com/AliceO2Group/Control/core/task/sm"
 
 	"github.com/AliceO2Group/Control/common/event"
@@ -245,6 +246,9 @@ func (t *taskRole) updateState(s sm.State) {
 			Error("cannot update state with nil parent")
 	}
 	t.state.merge(s, t)
+	if verifhook.Enabled {
+		verifhook.Point("wf.taskrole.merged", "env", t.GetEnvironmentId().String(), "role", t.GetPath(), "state", s.String(), "crit", t.Critical)
+	}
 	log.WithField("role", t.Name).
 		WithField("partition", t.GetEnvironmentId().String()).
 		Tracef("updated state to %s upon input state %s", t.state.get().String(), s.String())
